@@ -97,6 +97,17 @@ def run(tier, seed):
             tmeta.append((None, "outside"))
         unknown = max(ids) + 1000
         treqs.append(f"trig {exp} {unknown} 0 0 0 0"); tmeta.append((None, "notfound"))
+        # EVERY id that is not in the table up to its largest id (+2, and u32::MAX), asked at the centre of the next larger trigger and of
+        # the next smaller one on their maps — where a lookup that lands on a neighbour would answer success
+        byid = dict(first)
+        sid = sorted(byid)
+        import bisect
+        for absent in [i_ for i_ in range(0, max(ids) + 3) if i_ not in byid] + [0xFFFFFFFF]:
+            j_ = bisect.bisect_left(sid, absent)
+            for nb in ([sid[j_]] if j_ < len(sid) else []) + ([sid[j_ - 1]] if j_ > 0 else []):
+                t_ = byid[nb]
+                treqs.append(f"trig {exp} {absent} {t_['map']} {fmt(t_['x'])} {fmt(t_['y'])} {fmt(t_['z'])}")
+                tmeta.append((None, "notfound"))
     # random boxes: every yaw, aspect ratio; points near faces, edges, corners
     nbox = 300 if tier == "quick" else 6000
     for _ in range(nbox):
